@@ -34,7 +34,7 @@ RT_CLASSES = ["short-plain", "short-dashed", "short-multi-dashed", "short-with-t
               "version-leading-zeros", "version-freeform", "version-ends-like-type", "version-edge-blank-or-foreign-digit", "with-bp", "bp-short-dashed", "bp-type-nonga"] + \
              ["type-" + t for t in domains.RELEASE_TYPES]
 CLASS_FLOORS = dict((c, 10) for c in RT_CLASSES)
-CLASS_FLOORS.update({"create-unknown-valid-type": 50, "enumerated-non-ascii-or-blank": 1000, "version-edge-blank-or-foreign-digit": 10, "refusal-short": 10, "refusal-version": 10, "refusal-type": 10, "refusal-bp": 10,
+CLASS_FLOORS.update({"version-component-beyond-int-conversion-limit": 5, "create-unknown-valid-type": 50, "enumerated-non-ascii-or-blank": 1000, "version-edge-blank-or-foreign-digit": 10, "refusal-short": 10, "refusal-version": 10, "refusal-type": 10, "refusal-bp": 10,
                      "create-accepted": 10})
 
 
@@ -128,6 +128,9 @@ def gen_version(rng, kind=None):
     if kind == "leading-zeros":
         return rng.choice(["00", "07", "7.00", "1.05", "2024.01.09", "0.0.01", "010"])
     if kind == "numeric":
+        if rng.random() < 0.02:
+            # "dot-separated decimal integers" has no length bound: components beyond what int() converts by default (4300 digits)
+            return rng.choice(["7" * 4301, "1." + "9" * 5000, "0" * 4400 + ".1"])
         return str(rng.choice([0, 1, 7, 22, 2024, rng.randint(0, 10 ** 6)]))
     if kind == "dotted":
         return ".".join(str(rng.randint(0, 30)) for _ in range(rng.randint(2, 4)))
@@ -185,6 +188,8 @@ def rt_classes(c):
         out.append("version-ends-like-type")
     if v != v.strip() or (v[:1].isdigit() and not ("0" <= v[:1] <= "9")) or v[:1] == "\u00b2":
         out.append("version-edge-blank-or-foreign-digit")
+    if len(v) > 4300:
+        out.append("version-component-beyond-int-conversion-limit")
     if "0" <= v[:1] <= "9" and any(len(p) > 1 and p.startswith("0") for p in v.split(".")):
         out.append("version-leading-zeros")
     if any(seg.startswith(t.split("-")[0]) for seg in c["short"].split("-")[1:] for t in domains.RELEASE_TYPES if t != "ga"):
